@@ -571,6 +571,9 @@ pub fn check_hist(r: &mut Recorder, c: &Value) {
                   json!({"start": show(&start), "start_bytes": bytes(&start), "history": trail,
                          "expected": {"res": st["res"], "st": st["st"], "ser": st["ser"]},
                          "observed": {"res": res, "st": after, "ser": ser}}));
+            // the value the object now holds still owes the value-level obligations (round trip, parts), whatever the model says
+            let desc = format!("history of {} ops from '{}' (after diverging from the model)", trail.len(), show(&start));
+            check_loc_value(r, desc.as_bytes(), &loc, "hist");
             return; // the model and the object have diverged; later steps would only echo this
         }
     }
